@@ -196,7 +196,8 @@ class BuildMachine(Machine):
             n_inv = sum(1 for kind, _ in body if kind == "invalid") or 1
             fail_at = f.randint(1, n_inv + 1)
         return dict(op="build", target=target, via=via, platform=platform, lines=body,
-                    fail_at=fail_at, max_ncwb=max_ncwb)
+                    fail_at=fail_at, fault_mode=f.choice(["raise", "raise", "detach"]),
+                    max_ncwb=max_ncwb)
 
     # ------------------------------------------------------------- oracle
     def _fail(self, oracle, msg, **disc):
@@ -214,7 +215,7 @@ class BuildMachine(Machine):
         if "valid" in kinds and "invalid" in kinds:
             self.had_mix = True
         self.log.take()
-        self.log.arm(op["fail_at"])
+        self.log.arm(op["fail_at"], op.get("fault_mode", "raise"))
         err = None
         obj = None
         try:
@@ -226,7 +227,8 @@ class BuildMachine(Machine):
             self.log.arm(None)
         recs = self.log.take()
         if fired:
-            self.faults["sink_failed_mid_construct"] += 1
+            self.faults["sink_failed_mid_construct" if op.get("fault_mode", "raise") == "raise"
+                        else "sink_detached_mid_construct"] += 1
         if err is not None:
             return self._judge_error(op, body, err, fired)
         if fired:
